@@ -39,9 +39,12 @@ def history_property(ctx, prop, profile, monitors, summarize, max_examples, step
         config = data.draw(cfg_st, label='config')
         nsteps = data.draw(st.integers(min(4, steps), steps), label='nsteps')
         case = {'impl': impl, 'config': config, 'actions': []}
-        if world_kw:
-            case['world_kw'] = world_kw
-        ex = Exec(impl, config, world_kw)
+        wkw = dict(world_kw or {})
+        if profile.get('world_kw_st') is not None:
+            wkw.update(data.draw(profile['world_kw_st'], label='world_kw'))
+        if wkw:
+            case['world_kw'] = wkw
+        ex = Exec(impl, config, wkw or None)
         try:
             try:
                 dr = Drawer(data.draw, ex, profile)
